@@ -28,6 +28,8 @@ EXPLANATION = (
     "announced by a PrepareDumpWarning.  Declined: equivalence of the converted wavefunction (numerical; "
     "structural part under C14)."
 )
+TECHNIQUE += '; evaluation of the shared preparation helpers on abstract objects'
+EXPLANATION += " R2 evaluates prepare_unrestricted_aminusb and prepare_segmented / convert_to_segmented on abstract objects: the very same object comes back exactly when nothing needs converting, otherwise a converted copy is returned and the caller's object is untouched."
 TRUSTED = [
     "CPython ast parser", "numpy view-vs-copy rules as tabulated in the ownership domain",
     "attrs.evolve makes a shallow copy", "basic slicing/attribute access returns views/members",
@@ -145,49 +147,15 @@ def run(ctx):
 
     # ------------------------------------------------------------------ R2
     ctx.rule("R2", "the very same object is returned when nothing needs converting", "a needless copy, or an unconverted object passed on as if it were fine")
+    # the two shared preparation helpers are evaluated on abstract objects (identity exactly when nothing needs
+    # converting; a converted *copy* with the caller's object untouched otherwise)
+    from .guards import check_aminusb_predicate
+    from .segpred import check_segmentation
+
+    check_aminusb_predicate(ctx, "R2")
+    check_segmentation(ctx, "R2", "R2")
     pa = prog.func("iodata.prepare.prepare_unrestricted_aminusb")
     ps_ = prog.func("iodata.prepare.prepare_segmented")
-    for f in (pa, ps_):
-        p0 = f.posparams[0]
-        rets = [n for n in f.own_nodes() if isinstance(n, ast.Return)]
-        conv = [r for r in rets if isinstance(r.value, ast.Call)]
-        ident = [r for r in rets if isinstance(r.value, ast.Name) and r.value.id == p0]
-        other = [r for r in rets if r not in conv and r not in ident]
-        for r in other:
-            ctx.violate("R2", f"{f.name} returns something that is neither its argument nor a conversion result", f, r)
-        if not ident:
-            ctx.violate("R2", f"{f.name} has no identity return (always converts or copies)", f, f.node, construct="identity return")
-        for r in ident:
-            ctx.ok("R2", f"{f.name}: returns the argument itself on the nothing-to-do path", f"{f.module.relpath}:{r.lineno}")
-    # predicates guarding the identity returns of prepare_unrestricted_aminusb
-    pm = prog.parents(pa)
-    p0 = pa.posparams[0]
-    allowed_atoms = {
-        f"{p0}.mo.kind == 'unrestricted'": "already unrestricted",
-        f"{p0}.mo.occs_aminusb is None": "no explicit alpha-minus-beta occupations",
-    }
-    for r in [n for n in pa.own_nodes() if isinstance(n, ast.Return) and isinstance(n.value, ast.Name) and n.value.id == p0]:
-        par = pm.get(id(r))
-        if not isinstance(par, ast.If) or r not in par.body:
-            ctx.violate("R2", "identity return of prepare_unrestricted_aminusb is not directly guarded by a nothing-to-do test", pa, r)
-            continue
-        disj = par.test.values if isinstance(par.test, ast.BoolOp) and isinstance(par.test.op, ast.Or) else [par.test]
-        bad = [d for d in disj if " ".join(src_of(deref_attr(pa, d)).split()).replace('"', "'") not in allowed_atoms]
-        if bad:
-            ctx.violate("R2", f"prepare_unrestricted_aminusb skips the conversion under `{src_of(bad[0])}`, which is not one of the documented nothing-to-do cases {sorted(allowed_atoms)}: orbitals that need converting are written as they are", pa, par.test)
-        else:
-            ctx.ok("R2", f"identity return guarded by `{src_of(par.test)}`", f"{pa.module.relpath}:{par.lineno}")
-    guarded = set()
-    for r in [n for n in pa.own_nodes() if isinstance(n, ast.Return) and isinstance(n.value, ast.Name) and n.value.id == p0]:
-        par = pm.get(id(r))
-        if isinstance(par, ast.If) and r in par.body:
-            disj = par.test.values if isinstance(par.test, ast.BoolOp) and isinstance(par.test.op, ast.Or) else [par.test]
-            guarded |= {" ".join(src_of(d).split()).replace('"', "'") for d in disj}
-    for atom, why in allowed_atoms.items():
-        if atom in guarded:
-            ctx.ok("R2", f"`{atom}` ({why}) returns the given object itself", pa.where)
-        else:
-            ctx.violate("R2", f"prepare_unrestricted_aminusb does not return the given object itself when `{atom}` ({why}): a needless copy / conversion", pa, pa.node, construct=f"identity return missing for {atom}")
     # format prepare_dump: returns the parameter or a prepare_* result; api passes it on
     for short in prog.format_modules():
         g = prog.format_op(short, "prepare_dump")
